@@ -22,7 +22,7 @@ import (
 )
 
 func init() {
-	caseGens["C15"] = caseGen{count: pipeCount(6000, 60000), gen: c15Gen}
+	caseGens["C15"] = caseGen{count: pipeCount(20000, 150000), gen: c15Gen}
 }
 
 const c15Magic = 0x810b00ff
@@ -319,7 +319,7 @@ func c15Structured(r *Rng, tier string) ([]byte, int, int) {
 		seq = uint32(r.Pick(0, 1, 0xffffffff, 0x7fffffff))
 	}
 	format := c15Formats[r.Intn(len(c15Formats))]
-	if r.Chance(55) {
+	if r.Chance(70) {
 		format = []string{"<h", "<h", "<i", ">h", "<q", ">i", "!q"}[r.Intn(7)]
 	}
 	wordlen := 0
@@ -336,6 +336,9 @@ func c15Structured(r *Rng, tier string) ([]byte, int, int) {
 		}
 	}
 	dims := c15Dims(r)
+	if r.Chance(40) {
+		dims = []int{r.Pick(1, 2, 3, 4, 8), r.Pick(1, 1, 2, 0)}
+	}
 	nchan := c15Prod(dims)
 	nfr := r.Pick(0, 1, 1, 2, 3, 4, 7)
 	if tier == "thorough" && r.Chance(5) {
@@ -635,8 +638,23 @@ func (s *c15Script) run(reads []int, pseq uint32, pn int) string {
 	if stopped != "" {
 		return stopped
 	}
+	// the constructed packet as the real code sees it (the round-trip oracle compares against this)
+	ver, src := p.VerifHeader()
+	_, off := p.ChannelInfo()
+	sum := fmt.Sprintf("S v %d src %d seq %d off %d", ver, src, p.SequenceNumber(), off)
+	if sz, ok := p.VerifShape(); ok {
+		sum += " sh " + ints(sz)
+	} else {
+		sum += " sh -1"
+	}
+	if ts := p.Timestamp(); ts != nil {
+		sum += fmt.Sprintf(" ts %d", ts.T)
+	} else {
+		sum += " ts -1"
+	}
+	sum += " data " + c15Data(p.Data, true)
 	b := p.Bytes()
-	return "B " + hexs(b) + " " + c15Decode(b, reads, pseq, pn)
+	return sum + " B " + hexs(b) + " " + c15Decode(b, reads, pseq, pn)
 }
 
 func c15GenScript(r *Rng, tier string) (*c15Script, int, int) {
@@ -806,7 +824,7 @@ func c15Hot(idx int) (string, func() string, bool) {
 		return scr(&c15Script{ver: 1, src: 2, seq: 3, ops: []c15Op{wop(16, []int16{2, 3}, 12)}})
 	case 14: // timestamp with rate 0
 		return scr(&c15Script{ver: 1, src: 2, seq: 3, ops: []c15Op{wop(16, []int16{2}, 4), {kind: "T", t: 12345, rate: 0}}})
-	case 15: // 100 dimensions: header length 24+8+8*26 = 240 fits, +16 for a timestamp does not
+	case 15: // 104 dimensions: header length 24+8+8*27 = 248 fits, +16 for a timestamp does not
 		d := make([]int16, 104)
 		for i := range d {
 			d[i] = 1
